@@ -68,10 +68,13 @@ def batch_exits(chk, n_tasks, jobs):
     open(os.path.join(root, "COND"), "w").write(cond)
     p = subprocess.Popen([PY, "-m", "conductor", "run", "//:after", "-j", str(jobs)], cwd=root, env=dict(os.environ, PYTHONPATH=SRC),
                          stdout=subprocess.PIPE, stderr=subprocess.PIPE, start_new_session=True)
-    first = names[:jobs]
-    if not _wait_for(lambda: _pids(root, first) is not None):
+    def started():
+        return [n for n in names if _pids(root, [n]) is not None]
+
+    if not _wait_for(lambda: len(started()) >= jobs, 30):
         rc, text, _ = _finish(p, 1)
         return "harness: tasks did not start: %s" % text[-300:]
+    first = started()[:jobs]          # whichever tasks the scheduler chose to start first
     pids = _pids(root, first)
     os.kill(p.pid, signal.SIGSTOP)
     open(flag, "w").close()
@@ -107,7 +110,7 @@ def unrelated_child(chk, helper_rc, task_rc):
         return "cond run did not terminate with an unrelated child around: %r" % text[-300:]
     want = 0 if task_rc == 0 else 1
     ran = os.path.exists(os.path.join(root, "cond-out", "after.task", "ran"))
-    if rc != want or ran != (task_rc == 0):
+    if (rc == 0) != (want == 0) or rc is None or rc < 0 or ran != (task_rc == 0):
         return ("an unrelated child exited with %d before task //:t exited with %d: cond exited %s, the dependent of //:t %s: %r"
                 % (helper_rc, task_rc, rc, "was executed" if ran else "was not executed", text[-300:]))
     return None
@@ -207,24 +210,35 @@ def stopped_task(chk, parallel):
     waitpid for stopped children would take the stop for an exit.)"""
     root = implrun.make_project({"COND": ""})
     par = "True" if parallel else "False"
+    flag = os.path.join(root, "may-end")
+    # with --jobs 2, b and c keep running until the observation has been made (no fixed duration: the machine may be slow);
+    # sequentially they are short, so that whichever order the scheduler picks, task a gets its turn
+    hold = ("; while [ ! -e %s ]; do sleep 0.05; done" % flag) if parallel else ""
     cond = ('run_command(name="a", run="echo $$ > $COND_OUT/pid; kill -STOP $$; touch $COND_OUT/resumed", parallelizable=%s)\n' % par
-            + 'run_command(name="b", run="touch $COND_OUT/started; sleep 2.5", parallelizable=%s)\n' % par
-            + 'run_command(name="c", run="touch $COND_OUT/started", parallelizable=%s)\n' % par
+            + 'run_command(name="b", run="touch $COND_OUT/started%s", parallelizable=%s)\n' % (hold, par)
+            + 'run_command(name="c", run="touch $COND_OUT/started%s", parallelizable=%s)\n' % (hold, par)
             + 'combine(name="all", deps=[":a", ":b", ":c"])\n')
     open(os.path.join(root, "COND"), "w").write(cond)
     argv = [PY, "-m", "conductor", "run", "//:all"] + (["-j", "2"] if parallel else [])
     p = subprocess.Popen(argv, cwd=root, env=dict(os.environ, PYTHONPATH=SRC), stdout=subprocess.PIPE, stderr=subprocess.PIPE, start_new_session=True)
     pidf = os.path.join(root, "cond-out", "a.task", "pid")
-    if not _wait_for(lambda: os.path.exists(pidf) and open(pidf).read().strip() != "", 20):
-        rc, text, _ = _finish(p, 1)
-        return "harness: task a did not start: %s" % text[-300:]
+
+    def started(n):
+        return os.path.exists(os.path.join(root, "cond-out", n + ".task", "started"))
+
+    a_started = lambda: os.path.exists(pidf) and open(pidf).read().strip() != ""  # noqa: E731
+    _wait_for(lambda: a_started() or (started("b") and started("c")), 30)
+    if not a_started():
+        # the scheduler gave both slots to b and c first (any order is legal): let them end; a then runs with nothing
+        # beside it, so there is no concurrency to judge in this run
+        open(flag, "w").close()
+        if not _wait_for(a_started, 30):
+            rc, text, _ = _finish(p, 1)
+            return "harness: task a did not start: %s" % text[-300:]
     apid = int(open(pidf).read().strip())
     if not _wait_for(lambda: _state(apid) == "T", 10):
         rc, text, _ = _finish(p, 1)
         return "harness: task a did not stop: %s" % text[-300:]
-
-    def started(n):
-        return os.path.exists(os.path.join(root, "cond-out", n + ".task", "started"))
 
     before = {n: started(n) for n in ("b", "c")}
     time.sleep(1.2)                      # a stays stopped
@@ -236,9 +250,10 @@ def stopped_task(chk, parallel):
         if newly:
             msg = "task //:a is stopped (not exited) and non-parallelizable, yet %s started meanwhile" % ["//:" + n for n in newly]
     else:
-        # jobs = 2: a (stopped) and b (sleeping) hold the two slots; c must wait
-        if during["b"] and during["c"] and _state(apid) == "T":
-            msg = "with --jobs 2, //:a (stopped, not exited) and //:b hold both slots, yet //:c started as well: three tasks at once"
+        # jobs = 2: a (stopped) and one of b / c (held until the flag appears) occupy the two slots; the other one must wait
+        if during["b"] and during["c"] and _state(apid) == "T" and not os.path.exists(flag):
+            msg = "with --jobs 2, //:a (stopped, not exited), //:b and //:c were all started and none had ended: three tasks at once"
+    open(flag, "w").close()
     try:
         os.kill(apid, signal.SIGCONT)
     except OSError:
